@@ -47,9 +47,6 @@ func TestVerifC14(t *testing.T) {
 
 var c14Watchdog = 20 * time.Second
 
-// how long a case that is known to hang (see neverEnds) is observed before it is declared hung
-var c14HangWait = 1500 * time.Millisecond
-
 func init() {
 	if v, err := strconv.Atoi(os.Getenv("C14_WATCHDOG_MS")); err == nil && v > 0 {
 		c14Watchdog = time.Duration(v) * time.Millisecond
@@ -270,12 +267,7 @@ type c14Resp struct {
 	trlUndc []c14KV // set with the "Trailer:" key prefix after the body
 }
 
-// neverEnds: Body == nil with a non-empty Trailer. The Transport leaves END_STREAM off the
-// HEADERS frame (trailers are announced) and then skips the body/trailer phase entirely.
-func (r *c14Req) neverEnds() bool { return r.nilBody && len(r.trl) > 0 }
-
 const (
-	sigNeverEnds   = "nil-body-with-trailers-never-ends"
 	sigEarlyWindow = "early-data-exceeds-unacked-initial-window"
 	sigEarlyHpack  = "early-hpack-table-size-unacked"
 )
@@ -835,10 +827,6 @@ func c14Exec(ops []string, o *vu.Out) {
 	timedOut := false
 	var ccErr error
 	wd := c14Watchdog
-	hangExpected := n == 1 && c.reqs[0].neverEnds()
-	if hangExpected {
-		wd = c14HangWait
-	}
 	if c.cfg.early == 1 {
 		// the client must not see anything from the server (in particular its SETTINGS) until it
 		// has sent all it may send under the protocol's initial values
@@ -952,22 +940,6 @@ func c14Exec(ops []string, o *vu.Out) {
 			c.earlyOracle(rec, o)
 		}
 		o.Op("end", "ok")
-		return
-	}
-	if timedOut && hangExpected {
-		sent, ended := rec.sentOnStream(0, 1)
-		c.mu.Lock()
-		defer c.mu.Unlock()
-		if !ended && sent == 0 && c.seenReq[0].got {
-			o.Fail(sigNeverEnds, "Request with Body == nil and a non-empty Trailer: HEADERS without END_STREAM and nothing after it; the handler blocks reading the body, RoundTrip never returns")
-			c.emitFrames(rec, o)
-			o.Op("hreq 0", "incomplete")
-			o.Op("cres 0", "none")
-			o.Op("end", "finding "+sigNeverEnds)
-			return
-		}
-		o.Fail("hang", "unexpected state of a nil-body-with-trailers exchange")
-		o.Op("end", "timeout")
 		return
 	}
 	if timedOut {
@@ -1264,6 +1236,11 @@ func (c *c14Case) oracle(i int, o *vu.Out) {
 	wantT := map[string][]string{}
 	for _, kv := range rq.trl {
 		ck := http.CanonicalHeaderKey(kv.k)
+		if rq.nilBody {
+			// no body, no trailers (they follow the body; same as HTTP/1): only announced
+			wantT[ck] = append(wantT[ck])
+			continue
+		}
 		wantT[ck] = append(wantT[ck], kv.vv...)
 	}
 	for k, vv := range wantT {
